@@ -116,6 +116,7 @@ const (
 type Plan struct {
 	Funcs     []Func
 	RecLocals [2]int // number of i64 locals of rec0/rec1
+	RecHost   bool   // rec0/rec1 call the pure host function env.recprobe at every level before recursing
 	// NImports: number of functions imported from module ImportFrom
 	// (f_0..f_{NImports-1} of that module's plan).
 	NImports   int
@@ -311,6 +312,7 @@ type Layout struct {
 	ClockTimeGet, RandomGet    uint32
 	Imp0                       uint32 // first imported plan function
 	Host2                      uint32 // env.h2, when the plan has it
+	RecProbe                   uint32 // env.recprobe, when the plan has it
 	F0                         uint32 // first plan function
 	Rec0                       uint32
 	Odd                        uint32
@@ -324,6 +326,10 @@ func (p *Plan) Layout() Layout {
 	l.F0 = 8 + uint32(p.NImports)
 	if p.Host2 {
 		l.Host2 = l.F0
+		l.F0++
+	}
+	if p.RecHost {
+		l.RecProbe = l.F0
 		l.F0++
 	}
 	l.Rec0 = l.F0 + uint32(len(p.Funcs))
@@ -356,6 +362,9 @@ func (p *Plan) Encode() []byte {
 	}
 	if p.Host2 {
 		m.ImportFunc("env", "h2", i32, []wasmb.ValType{w32, w32})
+	}
+	if p.RecHost {
+		m.ImportFunc("env", "recprobe", i32, i32)
 	}
 	tGuest := m.AddType(i32, i32)
 	tHost := m.AddType([]wasmb.ValType{wasmb.I32, wasmb.I32}, i32)
@@ -534,6 +543,9 @@ func (p *Plan) Encode() []byte {
 		for i := range locals {
 			locals[i] = wasmb.I64
 			c.LocalGet(0).I64ExtendI32U().I64Const(int64(i)).I64Add().LocalSet(uint32(1 + i))
+		}
+		if p.RecHost {
+			c.LocalGet(0).Call(l.RecProbe).Drop()
 		}
 		c.LocalGet(0).I32Const(1).I32Sub().Call(l.Rec0 + uint32(r))
 		for i := range locals {
